@@ -9,6 +9,7 @@ data / node-info / rotation datagrams, structured handshake datagrams behind a g
 datagrams up to the receive buffer size, sequences of up to 50.  TLC judges every family record (NodeFamOK)."""
 import os
 import vplib as V
+from checks import cloudcommon
 from checks import noderuns
 
 PID = "C08"
@@ -49,6 +50,7 @@ def run(tier, out):
         "self_test": st,
         "oracle_applied_in": "harness per member (panic / reply / interface write / shape change), TLC per family record",
     }
+    cloudcommon.part(PID, tier, out, cov)
     return out.finish("model_checking", cov, assumptions=[
         "the outsider holds no trusted key; verbatim replays of genuine datagrams are C09's subject, not C08's",
         "the largest datagram is 65435 bytes: the receive buffer of run() (65535 bytes with 100 bytes head room) truncates anything longer",
